@@ -2380,10 +2380,11 @@ class ktensor:
         if title is not None:
             show_title = True
         if normalize:
-            self.normalize(normtype=norm, sort=True)
+            # plotting must not change the tensor: normalize a copy
+            self = self.copy().normalize(normtype=norm, sort=True)
 
         # compute factor weights (and optionally normalize)
-        weights = self.weights
+        weights = self.weights.copy()
         weight_labels = [format(w, ".2e") for w in weights]
         if rel_weights:
             weights /= np.max(weights)
